@@ -29,7 +29,10 @@ def isinstance_arms(root: ast.AST, var: str
     for n in ast.walk(root):
         if not isinstance(n, ast.If):
             continue
-        for c in ast.walk(n.test):
+        cands = [n.test]
+        if isinstance(n.test, ast.BoolOp) and isinstance(n.test.op, ast.Or):
+            cands = list(n.test.values)
+        for c in cands:
             if isinstance(c, ast.Call) and dotted(c.func) == 'isinstance' \
                     and len(c.args) == 2 and norm(c.args[0]) == var:
                 t = c.args[1]
